@@ -42,7 +42,7 @@ use rand::{Rng, SeedableRng};
 use serde_json::{json, Value};
 use std::collections::BTreeMap;
 use std::io::{BufRead, BufReader};
-use vh::fontgen::{self, Component, GlyphSpec, Pt, TtFont};
+use vh::fontgen::{self, GlyphSpec, Pt, TtFont};
 use vh::sup::{guarded, panic_key, Outcome};
 use vh::util::{repo_fonts, repo_root, NdWriter};
 
@@ -188,21 +188,73 @@ fn visit_cff_bytes(d: &[u8], gids: &[u16]) -> Vec<Value> {
 
 fn irec(g: Option<&Result<GlyphRec, String>>) -> Value {
     match g {
-        None => json!({"kind": "missing", "ends": [], "pts": [], "comps": []}),
-        Some(Err(why)) => json!({"kind": format!("unreadable:{}", why), "ends": [], "pts": [], "comps": []}),
+        None => json!({"kind": "missing", "ends": [], "pts": [], "comps": [], "instr": []}),
+        Some(Err(why)) => json!({"kind": format!("unreadable:{}", why), "ends": [], "pts": [], "comps": [], "instr": []}),
         Some(Ok(r)) => json!({
             "kind": match r.kind { Kind::Empty => "empty", Kind::Simple => "simple", Kind::Composite => "composite" },
             "ends": r.ends,
             "pts": r.pts.iter().map(|p| json!([p.0, p.1, p.2 as u8])).collect::<Vec<_>>(),
             // the component's glyph id is judged in the Subset event; here what positions and scales it
-            "comps": r.comps.iter().map(|c| json!([c.flags & COMP_SEM, c.a1, c.a2, c.tr])).collect::<Vec<_>>(),
+            "comps": r.comps.iter().map(placement).collect::<Vec<_>>(),
+            "instr": r.instr,
         }),
     }
 }
 
 fn no_irec() -> Value {
-    json!({"kind": "none", "ends": [], "pts": [], "comps": []})
+    json!({"kind": "none", "ends": [], "pts": [], "comps": [], "instr": []})
 }
+
+/// Everything that places and shapes a component, as the independent reader sees it (PlacementOf of
+/// Subset.tla): flag bits that bear on the glyph, the two arguments, the F2Dot14 raw values.
+fn placement(c: &glyph::Comp) -> Value {
+    json!([c.flags & COMP_SEM, c.a1, c.a2, c.tr])
+}
+
+/// Which families of component records a composite exercises (vacuity counters, selection by property).
+fn comp_features(r: &GlyphRec) -> Vec<&'static str> {
+    let mut f = Vec::new();
+    if r.kind != Kind::Composite {
+        return f;
+    }
+    for c in &r.comps {
+        f.push(match c.tr.len() {
+            0 => "tr:none",
+            1 => "tr:scale",
+            2 => "tr:xy-scale",
+            _ => "tr:two-by-two",
+        });
+        if c.tr.len() == 4 && c.tr[1] != c.tr[2] {
+            f.push("tr:two-by-two-asymmetric");
+        }
+        if c.tr.iter().any(|&v| v < 0) {
+            f.push("tr:negative-value");
+        }
+        f.push(if c.flags & 1 != 0 { "args:words" } else { "args:bytes" });
+        f.push(if c.flags & 2 != 0 { "args:xy-values" } else { "args:point-numbers" });
+        if c.flags & 2 != 0 && (c.a1 < 0 || c.a2 < 0) {
+            f.push("args:negative-offset");
+        }
+        for (bit, name) in [(0x0004u16, "flag:round-xy-to-grid"), (0x0200, "flag:use-my-metrics"), (0x0400, "flag:overlap-compound"), (0x0800, "flag:scaled-component-offset"), (0x1000, "flag:unscaled-component-offset")] {
+            if c.flags & bit != 0 {
+                f.push(name);
+            }
+        }
+    }
+    if !r.instr.is_empty() {
+        f.push("instructions");
+    }
+    f.sort();
+    f.dedup();
+    f
+}
+
+/// rarest first: what a seeded sample of a font's composites is most likely to miss
+const COMP_FEATURE_PRIORITY: [&str; 16] = [
+    "tr:two-by-two-asymmetric", "tr:two-by-two", "tr:xy-scale", "tr:negative-value", "tr:scale", "args:point-numbers", "instructions",
+    "flag:use-my-metrics", "flag:overlap-compound", "flag:scaled-component-offset", "flag:unscaled-component-offset",
+    "flag:round-xy-to-grid", "args:negative-offset", "args:words", "args:bytes", "tr:none",
+];
 
 /// The old glyph every new glyph stands for, as far as the output itself tells: position in the
 /// requested list, then component k of a new composite <-> component k of its old record.
@@ -368,6 +420,11 @@ fn subset_events(
         }
         if is_glyf && !src.comps(o).is_empty() {
             rec.bump("composite_glyphs", 1);
+            if let Some(Ok(r)) = src.glyphs.get(o as usize) {
+                for f in comp_features(r) {
+                    rec.bump(&format!("composite_retained:{}", f), 1);
+                }
+            }
         }
         let (isrc, iout) = if is_glyf { (irec(src.glyphs.get(o as usize)), irec(out_glyphs.get(n as usize))) } else { (no_irec(), no_irec()) };
         rec.ev(
@@ -421,28 +478,58 @@ fn leaf_token(r: &GlyphRec, n_src: i64) -> i64 {
 }
 
 /// The outline of glyph g of an independently read glyf table, flattened through its components, in
-/// the vocabulary of Subset.tla: [[leaf, dx, dy]..], or None (cycle / nesting too deep / unreadable).
-fn flat(glyphs: &[Result<GlyphRec, String>], g: usize, fuel: usize, n_src: i64) -> Option<Vec<[i64; 3]>> {
+/// the vocabulary of Subset.tla: [[leaf, [placement of every component passed, top down]]..], or None
+/// (cycle / nesting too deep / unreadable).
+fn flat(glyphs: &[Result<GlyphRec, String>], g: usize, fuel: usize, n_src: i64) -> Option<Vec<(i64, Vec<Value>)>> {
     let r = glyphs.get(g)?.as_ref().ok()?;
     match r.kind {
         Kind::Empty => Some(vec![]),
-        Kind::Simple => Some(vec![[leaf_token(r, n_src), 0, 0]]),
+        Kind::Simple => Some(vec![(leaf_token(r, n_src), vec![])]),
         Kind::Composite => {
             if fuel == 0 {
                 return None;
             }
             let mut out = vec![];
             for c in &r.comps {
-                // offsets only (ARGS_ARE_XY_VALUES, no scale): anything else is not a shape the generator made
-                if c.flags & 0x0002 == 0 || !c.tr.is_empty() {
-                    return None;
-                }
-                for l in flat(glyphs, c.gid as usize, fuel - 1, n_src)? {
-                    out.push([l[0], l[1] + c.a1 as i64, l[2] + c.a2 as i64]);
+                for (leaf, path) in flat(glyphs, c.gid as usize, fuel - 1, n_src)? {
+                    let mut p = vec![placement(c)];
+                    p.extend(path);
+                    out.push((leaf, p));
                 }
             }
             Some(out)
         }
+    }
+}
+
+/// The record of a CASE's glyph as bytes, written by the harness's own writers.
+fn case_glyph(case: &Value, g: i64, empty: &[i64]) -> Vec<u8> {
+    let comps = case["comp"][g as usize].as_array().expect("comp");
+    let instr: Vec<u8> = ints(&case["instr"][g as usize]).iter().map(|&b| b as u8).collect();
+    if !comps.is_empty() {
+        let n = comps.len();
+        let cs = comps
+            .iter()
+            .enumerate()
+            .map(|(k, c)| {
+                // <<glyph id, CompSem flag bits, ARG_1_AND_2_ARE_WORDS, argument 1, argument 2, transform>>
+                let mut flags = c[1].as_u64().unwrap() as u16;
+                if c[2].as_i64().unwrap() != 0 {
+                    flags |= 0x0001;
+                }
+                if k + 1 < n {
+                    flags |= 0x0020; // MORE_COMPONENTS
+                } else if !instr.is_empty() {
+                    flags |= 0x0100; // WE_HAVE_INSTRUCTIONS
+                }
+                glyph::Comp { flags, gid: c[0].as_u64().unwrap() as u16, a1: c[3].as_i64().unwrap() as i32, a2: c[4].as_i64().unwrap() as i32, tr: ints(&c[5]).iter().map(|&v| v as i16).collect() }
+            })
+            .collect();
+        glyph::write_glyph(&GlyphRec { kind: Kind::Composite, ends: vec![], pts: vec![], instr, bbox: [0, 0, 1000, 1000], comps: cs }, 0)
+    } else if empty.contains(&g) {
+        vec![]
+    } else {
+        fontgen::encode_glyph(&GlyphSpec::Simple { contours: shape(g), instructions: instr }, None)
     }
 }
 
@@ -455,6 +542,8 @@ fn replay(cases: &str, mism_path: &str, trace_path: &str, every: usize) {
     let mut rec = Rec { w: NdWriter::create(trace_path), i: 0, tally: BTreeMap::new() };
     let f = std::fs::File::open(cases).unwrap_or_else(|e| panic!("open {}: {}", cases, e));
     let (mut n_cases, mut n_mism, mut literal, mut failed, mut traced) = (0usize, 0usize, 0usize, 0usize, 0usize);
+    // families of component records in the synthesized source fonts (composite glyphs counted)
+    let mut gen_feat: BTreeMap<&'static str, u64> = BTreeMap::new();
     for line in BufReader::new(f).lines() {
         let line = line.expect("read");
         if line.trim().is_empty() {
@@ -468,34 +557,33 @@ fn replay(cases: &str, mism_path: &str, trace_path: &str, every: usize) {
         let lsb = ints(&case["lsb"]);
         let empty = ints(&case["empty"]);
         let req: Vec<u16> = ints(&case["req"]).iter().map(|&g| g as u16).collect();
-        let mut glyphs = Vec::new();
-        for g in 0..n {
-            let comps = case["comp"][g as usize].as_array().expect("comp");
-            glyphs.push(if !comps.is_empty() {
-                GlyphSpec::Composite {
-                    components: comps
-                        .iter()
-                        .map(|c| Component { gid: c[0].as_u64().unwrap() as u16, dx: c[1].as_i64().unwrap() as i16, dy: c[2].as_i64().unwrap() as i16, transform: None, flags_extra: 0 })
-                        .collect(),
-                    instructions: vec![],
-                }
-            } else if empty.contains(&g) {
-                GlyphSpec::Empty
-            } else {
-                GlyphSpec::Simple { contours: shape(g), instructions: vec![] }
-            });
-        }
-        let mut font = TtFont::new(glyphs);
+        // glyph records by the harness's own writers (component flags, argument width, transform and
+        // instructions exactly as the case says); the rest of the font from vh::fontgen
+        let records: Vec<Vec<u8>> = (0..n).map(|g| case_glyph(&case, g, &empty)).collect();
+        let mut font = TtFont::new((0..n).map(|_| GlyphSpec::Empty).collect());
         font.metrics = (0..n as usize).map(|g| (adv[g.min(nhm - 1)] as u16, lsb[g] as i16)).collect();
         font.num_h_metrics = nhm as u16;
         font.cmap = (1..n).map(|g| (0x40 + g as u32, g as u16)).collect();
         font.loca_long = n_cases % 2 == 0;
+        let (glyf_bytes, loca_bytes) = fontgen::glyf_loca(&records, font.loca_long);
+        font.extra_tables = vec![("loca".to_string(), loca_bytes), ("glyf".to_string(), glyf_bytes)];
         let bytes = font.build();
         let src_tables = Tables::from_sfnt(&bytes, 0).expect("own sfnt");
         let src = IndSrc::of(&src_tables).expect("own font readable");
         // the generator's font is what the case says (the harness's own reading of its own bytes)
         assert_eq!(src.nhm, nhm);
         assert!((0..n as usize).all(|g| src.adv[g] as i64 == adv[g.min(nhm - 1)] && src.lsb[g] as i64 == lsb[g]));
+        for g in 0..n as usize {
+            let r = src.glyphs[g].as_ref().expect("own glyph readable");
+            let want: Vec<Value> = case["comp"][g].as_array().unwrap().iter().map(|c| json!([c[1], c[3], c[4], c[5]])).collect();
+            assert_eq!(json!(r.comps.iter().map(placement).collect::<Vec<_>>()), json!(want), "own composite as the case says");
+            assert_eq!(json!(r.instr), case["instr"][g]);
+            if !r.comps.is_empty() {
+                for f in comp_features(r) {
+                    *gen_feat.entry(f).or_default() += 1;
+                }
+            }
+        }
 
         let fd = ReadScope::new(&bytes).read::<FontData<'_>>().expect("FontData of synthesized font");
         let prov = fd.table_provider(0).expect("provider of synthesized font");
@@ -508,9 +596,14 @@ fn replay(cases: &str, mism_path: &str, trace_path: &str, every: usize) {
                     let entry = |k: usize| -> Value {
                         let fl = match flat(&ogl, k, n_out, n) {
                             Some(ls) => json!(ls),
-                            None => json!([[-1, 0, 0]]),
+                            None => json!([[-1, []]]),
                         };
-                        json!([fl, oadv[k], olsb[k]])
+                        // the record's own placements (component fields but the glyph id) and instructions
+                        let own = match &ogl[k] {
+                            Ok(r) => json!([r.comps.iter().map(placement).collect::<Vec<_>>(), r.instr]),
+                            Err(why) => json!([format!("unreadable:{}", why), []]),
+                        };
+                        json!([fl, oadv[k], olsb[k], own])
                     };
                     let head: Vec<Value> = (0..req.len().min(n_out)).map(entry).collect();
                     // pulled-in components in a canonical order: by left side bearing (the generator's lsb grows with the old id)
@@ -547,7 +640,7 @@ fn replay(cases: &str, mism_path: &str, trace_path: &str, every: usize) {
                     for k in 0..e.len().max(o.len()) {
                         match (e.get(k), o.get(k)) {
                             (Some(a), Some(b)) => {
-                                for (j, nm) in ["outline", "advance", "lsb"].iter().enumerate() {
+                                for (j, nm) in ["outline", "advance", "lsb", "record"].iter().enumerate() {
                                     if a[j] != b[j] {
                                         what.insert(format!("{}:{}", part, nm));
                                     }
@@ -561,7 +654,7 @@ fn replay(cases: &str, mism_path: &str, trace_path: &str, every: usize) {
                 }
                 what.into_iter().collect::<Vec<_>>().join("+")
             };
-            mism.write(&json!({"case": n_cases, "class": class, "input": {"n": n, "nhm": nhm, "adv": adv, "lsb": lsb, "empty": empty, "comp": case["comp"], "req": req},
+            mism.write(&json!({"case": n_cases, "class": class, "input": {"n": n, "nhm": nhm, "adv": adv, "lsb": lsb, "empty": empty, "comp": case["comp"], "instr": case["instr"], "req": req},
                                "exp": exp, "obs": obs}));
         }
         // a sample of the cases also goes to the trace judge, with allsorts' own visitors on both sides
@@ -577,7 +670,7 @@ fn replay(cases: &str, mism_path: &str, trace_path: &str, every: usize) {
     println!(
         "{}",
         json!({"cases": n_cases, "mismatches": n_mism, "literal_order_matches": literal, "subset_failed": failed, "traced_cases": traced,
-               "events": events, "tally": rec.tally})
+               "events": events, "source_composite_families": gen_feat, "tally": rec.tally})
     );
 }
 
@@ -638,8 +731,33 @@ fn sources() -> Vec<Source> {
     out
 }
 
+/// 0: a composite with an asymmetric two by two transform, 1: some other rare family of component
+/// records, 2: the rest (and every font that is not glyf)
+fn font_rank(s: &Source) -> usize {
+    if s.kind != "glyf" {
+        return 2;
+    }
+    let glyphs = match s.tables.glyphs() {
+        Ok(g) => g,
+        Err(_) => return 2,
+    };
+    let mut rank = 2;
+    for r in glyphs.iter().flatten() {
+        if r.kind == Kind::Composite {
+            let f = comp_features(r);
+            if f.contains(&"tr:two-by-two-asymmetric") {
+                return 0;
+            }
+            if f.iter().any(|x| ["tr:two-by-two", "tr:xy-scale", "tr:scale", "args:point-numbers", "instructions"].contains(x)) {
+                rank = 1;
+            }
+        }
+    }
+    rank
+}
+
 /// Glyph id lists: always starting with 0, distinct, in range.
-fn id_lists(n: usize, nhm: usize, composites: &[u16], cap: usize, big: usize, rng: &mut StdRng) -> Vec<(String, Vec<u16>)> {
+fn id_lists(n: usize, nhm: usize, composites: &[u16], featured: &[u16], cap: usize, big: usize, rng: &mut StdRng) -> Vec<(String, Vec<u16>)> {
     let mut lists: Vec<(String, Vec<u16>)> = vec![("only0".into(), vec![0])];
     if n < 2 {
         return lists;
@@ -675,6 +793,12 @@ fn id_lists(n: usize, nhm: usize, composites: &[u16], cap: usize, big: usize, rn
         l.extend(c);
         lists.push(("composites".into(), l));
     }
+    if !featured.is_empty() {
+        // composites selected by property (see featured_composites), in the order found
+        let mut l = vec![0u16];
+        l.extend(featured.iter().cloned().filter(|&g| g != 0).take(cap.max(40)));
+        lists.push(("composites-by-property".into(), l));
+    }
     let mut pool: Vec<u16> = (1..n16).collect();
     pool.shuffle(rng);
     let r = rng.gen_range(1..=cap.min(n - 1));
@@ -689,6 +813,29 @@ fn id_lists(n: usize, nhm: usize, composites: &[u16], cap: usize, big: usize, rn
         lists.push((format!("first{}", big), (0..big as u16).collect()));
     }
     lists
+}
+
+/// Composites chosen by what their component records carry: for every family of comp_features, rarest
+/// first, up to `per` composites that show it (a seeded choice among them).
+fn featured_composites(glyphs: &[Result<GlyphRec, String>], per: usize, rng: &mut StdRng) -> (Vec<u16>, Vec<&'static str>) {
+    let mut by: BTreeMap<&'static str, Vec<u16>> = BTreeMap::new();
+    for (g, r) in glyphs.iter().enumerate().take(65535) {
+        if let Ok(r) = r {
+            for f in comp_features(r) {
+                by.entry(f).or_default().push(g as u16);
+            }
+        }
+    }
+    let mut out: Vec<u16> = Vec::new();
+    for f in COMP_FEATURE_PRIORITY {
+        if let Some(v) = by.get_mut(f) {
+            v.shuffle(rng);
+            for &g in v.iter().filter(|g| !out.contains(g)).take(per).collect::<Vec<_>>() {
+                out.push(g);
+            }
+        }
+    }
+    (out, by.keys().cloned().collect())
 }
 
 fn run_source<P: FontTableProvider>(
@@ -743,8 +890,15 @@ fn record(seed: u64, tier: &str, out: &str) {
     let mut rec = Rec { w: NdWriter::create(out), i: 0, tally: BTreeMap::new() };
     let (cap, big) = if quick { (28, 300) } else { (160, 420) };
     let mut all = sources();
-    // a seeded order, so that the per-kind samples differ from seed to seed
+    // a seeded order, so that the per-kind samples differ from seed to seed; glyf fonts whose composites
+    // carry what a sample is most likely to miss (selection by property) come first: asymmetric two by two
+    // transforms, then any transform / point-number arguments / instructions on a composite
     all.shuffle(&mut rng);
+    let rank: Vec<usize> = all.iter().map(font_rank).collect();
+    let mut order: Vec<usize> = (0..all.len()).collect();
+    order.sort_by_key(|&i| rank[i]);
+    let mut slots: Vec<Option<Source>> = all.into_iter().map(Some).collect();
+    let mut all: Vec<Source> = order.into_iter().map(|i| slots[i].take().unwrap()).collect();
     // synthesized CFF-family fonts first: what the repository lacks (CFF2 with subroutines, several Font DICTs)
     let syn: Vec<Source> = syn::fonts()
         .into_iter()
@@ -793,8 +947,13 @@ fn record(seed: u64, tier: &str, out: &str) {
             }
         }
         let composites: Vec<u16> = (0..src.n.min(65535) as u16).filter(|&g| !src.comps(g).is_empty()).collect();
+        let (featured, _) = featured_composites(&src.glyphs, 3, &mut rng);
         let big_here = if s.kind == "glyf" { 0 } else { big };
-        let lists = id_lists(src.n, src.nhm, &composites, cap, big_here, &mut rng);
+        let mut lists = id_lists(src.n, src.nhm, &composites, &featured, cap, big_here, &mut rng);
+        if s.label.starts_with("syn/") && !lists.iter().any(|l| l.0 == "all") {
+            // every glyph of a synthesized font is retained at least once (they are there for a reason)
+            lists.push(("all".into(), (0..src.n as u16).collect()));
+        }
         let fd = match ReadScope::new(&s.file).read::<FontData<'_>>() {
             Ok(fd) => fd,
             Err(_) => continue,
@@ -866,7 +1025,8 @@ fn record(seed: u64, tier: &str, out: &str) {
                 return None;
             }
             let composites: Vec<u16> = (0..src.n.min(65535) as u16).filter(|&g| !src.comps(g).is_empty()).collect();
-            let lists = id_lists(src.n, src.nhm, &composites, cap, 0, &mut rng);
+            let (featured, _) = featured_composites(&src.glyphs, 3, &mut rng);
+            let lists = id_lists(src.n, src.nhm, &composites, &featured, cap, 0, &mut rng);
             let cont = if path.ends_with(".woff") { "woff-file" } else { "woff2-file" };
             run_source(&mut rec, &format!("{}#0", rel(&path)), cont, &kind, &prov, &src, &lists, &["subset"]);
             rec.bump(&format!("fonts:{}", cont), 1);
@@ -888,7 +1048,19 @@ fn probe() {
             Ok(v) => (v.n, v.nhm, (0..v.n.min(65535) as u16).filter(|&g| !v.comps(g).is_empty()).count()),
             Err(_) => (0, 0, 0),
         };
-        println!("{:60} {:5} n={:6} nhm={:6} composites={:5} facts={:?} readable={}", s.label, s.kind, n, nhm, comps, s.facts, src.is_ok());
+        let feats = match &src {
+            Ok(v) => {
+                let mut m: BTreeMap<&'static str, usize> = BTreeMap::new();
+                for r in v.glyphs.iter().flatten() {
+                    for f in comp_features(r) {
+                        *m.entry(f).or_default() += 1;
+                    }
+                }
+                m
+            }
+            Err(_) => BTreeMap::new(),
+        };
+        println!("{:60} {:5} n={:6} nhm={:6} composites={:5} rank={} facts={:?} readable={} {:?}", s.label, s.kind, n, nhm, comps, font_rank(&s), s.facts, src.is_ok(), feats);
     }
 }
 
